@@ -184,6 +184,11 @@ class Explorer:
         fid = self.frame_counter
         store = dict(store)
         for p, a in zip(f.params, list(args) + [TOP] * (len(f.params) - len(args))):
+            if isinstance(a, dict):
+                # a struct passed by value: {path: value}
+                for path, v in a.items():
+                    store[(("loc", fid, p["name"]), tuple(path))] = v
+                continue
             store[(("loc", fid, p["name"]), ())] = a
         outs = []
         init = PState(f.entry, 0, store, {}, tuple(events), {}, ())
